@@ -217,7 +217,8 @@ func runC15(b *Batch) {
 		if b.Skip(i) {
 			continue
 		}
-		c15Case(b, i)
+		i := i
+		b.Guard(i, "C15", func() { c15Case(b, i) })
 		collectGarbage(i)
 	}
 	nc := b.Pick(256, 8000) / b.NBatches
